@@ -153,8 +153,8 @@ def ob_tv(skeleton, transform, budget_s=60.0, max_paths=4000, require_fire=False
     outs = sorted(stats.pop("outputs"))
     d["notes"] = dict(stats, distinct_outputs=len(outs), output_sample=outs[:2])
     d["fired"] = stats["fired"]
-    if not stats["fired"] or stats["outside"] == res.paths:
-        d["allow_vacuous"] = True  # counted as trivial, not as a pass
+    if not stats["fired"] or stats["outside"] == res.paths or (res.claims == 0 and res.outside_paths > 0):
+        d["allow_vacuous"] = True  # counted as trivial (original never terminates normally / rule silent), not as a pass
         d["trivial"] = True
     return d
 
